@@ -560,6 +560,10 @@ def check(ctx):
                     continue
                 n3b += 1
                 ktxt = ast.unparse(key)
+                try:
+                    kx = ast.unparse(sem.View(f3).expr(key))         # a local alias of a part of the value (member_name = data[0]) stands for that part
+                except Exception:
+                    kx = ktxt
                 ok = False
                 how = ''
                 for t in flow.enclosing_try_handlers(n, stop=f3):
@@ -571,14 +575,14 @@ def check(ctx):
                     ps3_ = sem.paths(f3)
                     reach3 = sem.reaching(ps3_, Model.enclosing_stmt(n)) if ps3_ is not None else None
                     if reach3:
-                        ok = all(any(c_[1] and c_[0].startswith('isinstance(%s, ' % ktxt) for c_ in conds_) or
+                        ok = all(any(c_[1] and (c_[0].startswith('isinstance(%s, ' % ktxt) or c_[0].startswith('isinstance(%s, ' % kx)) for c_ in conds_) or
                                  any('sys.version_info' in c_[0] and not c_[1] for c_ in conds_ if False) for _p, conds_ in reach3)
                         how = 'an isinstance test of the key holds on every path' if ok else ''
                 if not ok:
                     # a template method may run the type test in a sibling step before this one: an isinstance test of the same part of the value in another method of
                     # the class (or its bases in this module) leaves the question open rather than answered
                     sib = [g_ for k_ in c3.mro() if k_.mod is tcm3 for g_ in k_.methods.values() if g_ is not f3
-                           and any(isinstance(x_, ast.Call) and isinstance(x_.func, ast.Name) and x_.func.id == 'isinstance' and x_.args and ast.unparse(x_.args[0]) == ktxt
+                           and any(isinstance(x_, ast.Call) and isinstance(x_.func, ast.Name) and x_.func.id == 'isinstance' and x_.args and ast.unparse(x_.args[0]) in (ktxt, kx)
                                    for x_ in walk_no_nested(g_))]
                     if sib:
                         ctx.instance('C12.R3', '%s key %s (may be unhashable)' % (Model.qual(f3), ktxt[:50]), 'undecided', 'the type test is in %s' % Model.qual(sib[0]), nontrivial=False,
